@@ -25,8 +25,8 @@ EPS64 = float(np.finfo(np.float64).eps)
 BANDS = [(400.0, 1.0), (1400.0, 8.0), (100.0, 0.25), (327.0, 3.125)]       # (centre MHz, sample rate MHz)
 DMS = [1e-4, -1e-4, 1e-2, -1e-2, 1.0, -1.0, 30.0, -30.0, 1000.0]
 BOUNDS = {
-    "quick": dict(Ns=[8, 12, 15, 16, 32], nchan=[1, 2, 3], dtypes=["complex64", "complex128"]),
-    "thorough": dict(Ns=[7, 8, 9, 12, 15, 16, 25, 32, 48], nchan=[1, 2, 3, 4], dtypes=["complex64", "complex128"]),
+    "quick": dict(Ns=[1, 2, 3, 8, 12, 15, 16, 32], nchan=[1, 2, 3], dtypes=["complex64", "complex128"]),
+    "thorough": dict(Ns=[1, 2, 3, 5, 7, 8, 9, 12, 15, 16, 25, 32, 48], nchan=[1, 2, 3, 4], dtypes=["complex64", "complex128"]),
 }
 REFS = ["none", "center", "bottom", "top", "above", "below", "label", "inf"]
 
@@ -57,6 +57,17 @@ def gen_cases(tier, seed):
             yield {"kind": "roundtrip", "band": bi, "sign": sign}
 
 
+def dm_objects():
+    """(label value in pc/cm3, DispersionMeasure object, exact pc/cm3 value): also DMs stored in other equivalent units."""
+    for v in DMS:
+        yield v, pb.DM(v), F(v)
+    # the same physical DM given in pc/m^3 (exact decimal scale 1e-6) - the stored number differs, the physics must not
+    for v in (1e-2, -1.0, 30.0):
+        stored = v * 1e6
+        q = pb.DM(stored, u.pc / u.m ** 3)
+        yield v, q, F(float(stored)) / 10 ** 6
+
+
 def exact_labels(z):
     sc = hz(1 * z.channel_freqs.unit)
     return [F(float(v)) * sc for v in np.atleast_1d(z.channel_freqs.value)]
@@ -67,8 +78,10 @@ def ref_of(z, kind):
         return None
     if kind == "inf":
         return np.inf * u.MHz
-    return {"center": z.center_freq, "bottom": z.min_freq, "top": z.max_freq, "above": z.max_freq + 2 * z.chan_bw,
-            "below": z.min_freq - 2 * z.chan_bw, "label": z.channel_freqs[z.nchan // 2]}[kind]
+    r = {"center": z.center_freq, "bottom": z.min_freq, "top": z.max_freq, "above": z.max_freq + 2 * z.chan_bw,
+         "below": z.min_freq - 2 * z.chan_bw, "label": z.channel_freqs[z.nchan // 2]}[kind]
+    # the same frequency in another unit (the oracle reads the exact value of whatever Quantity is passed)
+    return r.to(u.GHz) if (len(z) % 2 and kind in ("top", "above", "label")) else (r.to(u.kHz) if kind == "below" else r)
 
 
 def oracle_chirp(dmx, label, srx, N, refx, nyq_pos):
@@ -101,13 +114,13 @@ def grid_case(case, res):
     Xb = np.concatenate([eye, 1j * eye], axis=1).astype(dft.CLD)            # N x 2N
     W = dft.dft_matrix(N)
     Wi = dft.dft_matrix(N, +1) / dft.LD(N)
-    for dmv in DMS:
-        dm = pb.DM(dmv)
-        dmx = F(dmv)
+    for dmv, dm, dmx in dm_objects():
         for refkind in REFS:
             ref = ref_of(base, refkind)
             refx = hz(base.center_freq) if ref is None else (None if refkind == "inf" else hz(ref))
-            sub = {"dm": dmv, "ref": refkind}
+            sub = {"dm": dmv, "dm_unit": str(dm.unit), "ref": refkind}
+            if str(dm.unit) != "pc / cm3":
+                res.hits["DM stored in another unit"] += 1
             # ---- (1) chirp arrays
             variants = [False, True] if N % 2 == 0 else [False]
             orc = [[oracle_chirp(dmx, lab, srx, N, refx, v) for lab in labels] for v in variants]
@@ -122,7 +135,7 @@ def grid_case(case, res):
                 res.violation("chirp|raised", f"{type(e).__name__}: {e} [{sub}]", case, sub)
                 continue
             res.transitions += 1
-            res.state(("chirp", case["band"], nchan, align, N, dmv, refkind))
+            res.state(("chirp", case["band"], nchan, align, N, dmv, str(dm.unit), refkind))
             if ch.shape != (N, nchan) or ch.dtype != np.complex64:
                 res.violation("chirp|shape/dtype", f"chirp {ch.shape} {ch.dtype} [{sub}]", case, sub)
                 continue
@@ -173,7 +186,7 @@ def grid_case(case, res):
                         continue
                     res.transitions += 1
                     res.traces += 1
-                    res.state(("dd", case["band"], nchan, align, N, dmv, refkind, dt, trailing))
+                    res.state(("dd", case["band"], nchan, align, N, dmv, str(dm.unit), refkind, dt, trailing))
                     if type(out) is not type(z) or out.dtype != z.dtype:
                         res.violation("dedisperse|type", f"{type(out).__name__}/{out.dtype} [{sub2}]", case, sub2)
                         continue
@@ -316,7 +329,7 @@ def main(argv=None):
         PID, gen_cases=gen_cases, check_case=check_case, describe=describe,
         required_hits=["chirp checked", "|phi| > 1000 cycles (reduction mod 1 matters)",
                        "block shorter than the sweep (empty result)", "cropped on both ends (reference inside band)",
-                       "reference outside the band", "infinite reference frequency", "wave packet moved by its delay", "DM then -DM"],
+                       "reference outside the band", "infinite reference frequency", "DM stored in another unit", "wave packet moved by its delay", "DM then -DM"],
         assumptions=["chirp is single precision by design; budget 8 eps32 + 2 pi |phi| 32 eps64 (1 + f_ref/|f - f_ref|) for the "
                      "float64 cancellation in 1/f_ref - 1/f", "Nyquist-bin frequency convention (+-sr/2) left open for even N",
                      "band-edge delays within 1e-9 of an integer leave the crop open"],
